@@ -53,7 +53,10 @@ LEVEL_TEXT = ("Proved in Lean for every history of start/advance/set_progress/di
               "cursor on the last of them - proved by induction over the history, given that every frame has as many line "
               "breaks as the format in use and no CR/ESC (framesFitB) and that the first cursor-up finds blank rows or the top "
               "of the terminal (firstMoveB); the final rows of that Lean terminal are compared on every ANSI case with the rows "
-              "of the harness's own terminal emulator.  The model is tied to the code by regenerated tables (formats, defaults, "
+              "of the harness's own terminal emulator.  The condition on the frames follows from the INPUTS (frames_fit_clean, "
+              "ansi_screen_shows_latest_frame_clean): format texts - also every mid-run set_format argument - without CR/ESC, bar "
+              "characters and messages - also every setter argument - without line break/CR/ESC (mlCleanCfgB, mlCleanCallsB; "
+              "decided by the model as hyp.ml_clean and compared with the same condition read off the real bar and the case).  The model is tied to the code by regenerated tables (formats, defaults, "
               "_TIME_FORMATS) and by exhaustive small-scope plus random differential runs comparing every stream write.")
 LEVEL_NOTE = ("Trusted: Lean kernel + propext/Quot.sound/Classical.choice, the hand-written model (sampled by the "
               "correspondence), the virtual clock and the terminal emulator of the harness. Formats with style tags "
@@ -73,7 +76,9 @@ REQUIRED_THEOREMS = ["Clikit.Props.C16." + n for n in (
     "start_guard_read", "start_explicit_max", "start_none_keeps_max", "start_explicit_frame", "finish_without_maximum",
     "restart_unknown_ends_at_step",
     "ansi_screen_shows_latest_frame", "ansi_screen_after_frame", "screen_hyps_decide", "ansi_screen_final_dec",
-    "cursor_up_read_back")]
+    "cursor_up_read_back",
+    "frames_fit_clean", "frames_fit_clean_dec", "clean_inputs_decide", "ansi_screen_shows_latest_frame_clean",
+    "ansi_screen_after_frame_clean")]
 RULE = ("exhaustive small scope: every call sequence up to length 4 over a pool of 8 (quick) / 11 (thorough) public "
         "calls with clock advances (start, advance(1) after 0 / 1/64 / 1/4 s [/ 2 s], advance(3) after 1/16 s, "
         "set_progress(max), display, clear, finish, set_message), thorough also lengths 5-6 over a 6-call pool and "
@@ -492,6 +497,14 @@ def _clean(s):
     return "\n" not in s and "\r" not in s
 
 
+def _printable(s):
+    return "\r" not in s and "\x1b" not in s
+
+
+def _vclean(s):
+    return "\n" not in s and _printable(s)
+
+
 def _bar_hyp_of(pb):
     """[the three bar characters are single characters, the bar width is a binary64 integer] for the bar as it is now"""
     chars = [pb.get_empty_bar_character(), pb.get_progress_character()]
@@ -508,7 +521,16 @@ def _hyp_of(pb, case):
     return {"single": all(len(c) == 1 for c in chars) and (own is None or len(own) == 1),
             "bar_width_ok": 0 <= pb.get_bar_width() < 2 ** 52,
             "clean_cfg": all(_clean(c) for c in chars) and (own is None or _clean(own)) and (fmt is None or _clean(fmt)),
-            "clean_ops": all(_clean(t) for t in texts)}
+            "clean_ops": all(_clean(t) for t in texts),
+            # the hypotheses of Props.C16.frames_fit_clean (multi-line formats), judged from the real bar after its
+            # setters ran and from the arguments of the calls: every format text (set before the run or by a set_format
+            # in the middle of it) without CR / ESC, everything substituted (bar characters, messages - before the run
+            # or by a setter) without line break / CR / ESC
+            "ml_clean": all(_vclean(c) for c in chars) and (own is None or _vclean(own)) and
+                        (fmt is None or _printable(fmt)) and
+                        all((_printable if o["op"] == "set_format" else _vclean)(o["arg"])
+                            for o in case["ops"] if o["op"] in TEXT_OPS) and
+                        (case["message"] is None or _vclean(case["message"]))}
 
 
 # --------------------------------------------------------------------------- model
@@ -531,6 +553,9 @@ def model_obs(case, answers):
     if scr is not None and scr["fits"] and scr["shown"] is not None and scr["rows"] != scr["shown"]:
         # Props.C16.ansi_screen_final_dec says this cannot happen; a driver that answers it is not the proved model
         raise AssertionError("model screen %r is not the latest frame %r" % (scr["rows"], scr["shown"]))
+    if scr is not None and answers[0]["hyp"]["ml_clean"] and not scr["fits"]:
+        # Props.C16.frames_fit_clean_dec says this cannot happen: clean inputs => every frame fits its format
+        raise AssertionError("clean inputs, but a frame of the model does not fit its format")
     return {"events": answers[0]["events"], "hyp": answers[0]["hyp"],
             "screen": None if scr is None else scr["rows"]}
 
